@@ -836,6 +836,24 @@ func (g *vfGW) apply(evFull string) {
 				}
 			})
 		}
+	case "lpubgo":
+		// lpubgo:T:LABEL -- Publish from its own goroutine: with Extra["park_local"] its validators can be parked
+		// by the explorer like those of a remote copy (released by vrel), so a local publication can be in progress
+		// while other things happen
+		data := make([]byte, 4)
+		copy(data, arg(2))
+		if sz := g.msgs[arg(2)].Size; sz > 4 {
+			data = make([]byte, sz)
+			copy(data, arg(2))
+		}
+		tp, label := g.topic(arg(1)), arg(2)
+		go func() {
+			if err := tp.Publish(context.Background(), data); err != nil {
+				g.lmu.Lock()
+				g.lpubErr[label] = err.Error()
+				g.lmu.Unlock()
+			}
+		}()
 	case "hb":
 		hbI := time.Second
 		if g.n.gs != nil {
